@@ -470,25 +470,34 @@ theorem writeAll_spec (dl cap : Nat) :
       · rw [if_neg ek, if_neg (by simp; omega)]
 
 /-- `sort`: the content becomes `sortFn abs`, for every `sortFn` that returns a rearrangement of
-its input (the part of the `qsort` contract needed for the array to stay well-formed) -/
-theorem sort_spec (a : ArraySized) (sortFn : List (List Nat) → List (List Nat)) (h : a.Inv)
+its input (the part of the `qsort` contract needed for the array to stay well-formed); only the first
+`size` records are written — every byte at or above `size * data_length` (dead slots) is untouched —
+and the checked access stays inside the buffer -/
+theorem sort_spec (a : ArraySized) (sortFn : List (List Nat) → List (List Nat)) (m : Mem) (h : a.Inv)
     (hperm : (sortFn a.abs).Perm a.abs) :
-    (a.sort sortFn).Inv ∧ (a.sort sortFn).abs = sortFn a.abs ∧
-    (a.sort sortFn).dataLen = a.dataLen ∧ (a.sort sortFn).cfg = a.cfg ∧
-    (a.sort sortFn).capacity = a.capacity ∧ (a.sort sortFn).size = a.size := by
+    (a.sort sortFn m).1.Inv ∧ (a.sort sortFn m).1.abs = sortFn a.abs ∧
+    (a.sort sortFn m).1.dataLen = a.dataLen ∧ (a.sort sortFn m).1.cfg = a.cfg ∧
+    (a.sort sortFn m).1.capacity = a.capacity ∧ (a.sort sortFn m).1.size = a.size ∧ (a.sort sortFn m).2 = m ∧
+    (∀ k, a.size ≤ k → k < a.capacity → (a.sort sortFn m).1.chunk k = a.chunk k) := by
   obtain ⟨j1, j2, j3, j4, j5⟩ := h
   have hlen : (sortFn a.abs).length = a.size := by rw [hperm.length_eq, abs_length]
   have hall : ∀ c ∈ sortFn a.abs, c.length = a.dataLen := by
     intro c hc
     exact elems_all_length a.dataLen a.buf a.size c ((hperm.mem_iff).1 hc)
   have hs := writeAll_spec a.dataLen a.capacity (sortFn a.abs) 0 a.buf hall (by omega) j4
+  have hchk : decide (a.size * a.dataLen ≤ a.buf.length) = true :=
+    decide_eq_true (Nat.le_trans (slots_le j3) j4)
   unfold sort
-  refine ⟨⟨j1, j2, j3, by dsimp only; rw [hs.1]; exact j4, j5⟩, ?_, rfl, rfl, rfl, rfl⟩
-  rw [abs_eq_elems]
-  dsimp only
-  apply List.ext_getElem
-  · simp [hlen]
+  rw [hchk]
+  refine ⟨⟨j1, j2, j3, by dsimp only; rw [hs.1]; exact j4, j5⟩, ?_, rfl, rfl, rfl, rfl, rfl, ?_⟩
+  · rw [abs_eq_elems]
+    dsimp only
+    apply List.ext_getElem
+    · simp [hlen]
+    · intro k hk1 hk2
+      have hk : k < a.size := by simpa using hk1
+      rw [elems_getElem, hs.2 k (by omega), if_pos (by omega)]
+      simp [List.getD_eq_getElem?_getD, hk2]
   · intro k hk1 hk2
-    have hk : k < a.size := by simpa using hk1
-    rw [elems_getElem, hs.2 k (by omega), if_pos (by omega)]
-    simp [List.getD_eq_getElem?_getD, hk2]
+    show chunkAt a.dataLen _ k = chunkAt a.dataLen a.buf k
+    rw [hs.2 k hk2, if_neg (by omega)]
